@@ -22,7 +22,7 @@ int g_live[NSLOT], g_nalloc, g_nfree, g_badfree, g_badalloc; void *g_ptr[NSLOT];
 NCPformat g_ncp; int g_ncp_live;
 void *superlu_malloc(size_t bytes) {
   int_t *base; int s = g_nalloc;
-  if (s >= NSLOT || bytes > SLOTLEN * sizeof(int_t) || bytes % sizeof(int_t) != 0) { g_badalloc = 1; __CPROVER_assume(0); }
+  if (s >= NSLOT || bytes > SLOTLEN * sizeof(int_t) || bytes % sizeof(int_t) != 0) { __CPROVER_assert(0, "allocator model: request within the modelled capacity (NSLOT blocks of SLOTLEN ints)"); __CPROVER_assume(0); }
   base = s == 0 ? g_pool0 : s == 1 ? g_pool1
 #if PATH >= 2
        : s == 2 ? g_pool2 : s == 3 ? g_pool3 : s == 4 ? g_pool4 : s == 5 ? g_pool5
@@ -52,7 +52,7 @@ void *malloc(size_t bytes) {
 #ifdef OOM
   if (nondet_bool()) return (void *) 0;
 #endif
-  if (bytes != sizeof(NCPformat) || g_ncp_live) { g_badalloc = 1; __CPROVER_assume(0); }
+  if (bytes != sizeof(NCPformat) || g_ncp_live) { __CPROVER_assert(0, "allocator model: one direct malloc, of an NCPformat"); __CPROVER_assume(0); }
   g_ncp_live = 1; return &g_ncp;
 }
 /* loop-free copies (legacy contract instrumentation wants the callee bodies loop-free): REP(M) = M(0) ... M(11), each guarded */
